@@ -58,7 +58,9 @@ def gen_entries(rng, n, agree=False):
         nm = s if rng.random() < 0.4 else s + rng.choice(ALPHA + [b""])
         if rng.random() < 0.2:
             nm = gen_name(rng)
-        if nm and b"/" not in nm and b"\x00" not in nm:
+        if rng.random() < 0.04:
+            nm = b""  # the empty name has no '/' and no NUL: inside the property; as a directory it sorts as "/"
+        if b"/" not in nm and b"\x00" not in nm:
             names.add(nm)
     out = []
     for nm in names:
